@@ -212,6 +212,44 @@ def _apply_op(m, op, operand=None):
     if k == 'concat3':
         # ds.concatenate(mid, last): two extra parts (the middle one is empty)
         return apply(apply(m, ('concat', None), operand[0]), ('concat', None), operand[1])
+    if k == 'intersperse3':
+        a_, b_ = operand
+        _need(m.sized and m.finite, 'intersperse needs sized inputs')
+        _need(m.n > 0, 'intersperse needs non-empty inputs')
+        parts = [m, a_, b_]
+        order = intersperse_order([p.n for p in parts])
+        ent = [parts[di].entries[ei] for _, di, ei in order]
+        new = M(ent, indexable=all(p.indexable for p in parts),
+                listable=all(p.listable for p in parts),
+                items=all(p.items for p in parts),
+                copyable=all(p.copyable for p in parts),
+                ordered=all(p.ordered for p in parts),
+                keysok=all(p.keysok for p in parts))
+        if new.labelstate == 'dup':
+            new.listable = False
+            new.keysok = False
+        new.bykey = all(p.bykey for p in parts) and new.listable \
+            and new.labelstate == 'unique'
+        return new
+    if k == 'zip3':
+        a_, b_ = operand
+        _need(m.sized and m.finite, 'zip needs sized inputs')
+        _need(m.n == a_.n == b_.n, 'zip needs equal lengths')
+        return M([(None, (x[1], y[1], z[1])) for x, y, z in
+                  zip(m.entries, a_.entries, b_.entries)],
+                 indexable=m.indexable and a_.indexable and b_.indexable,
+                 copyable=m.copyable)
+    if k == 'key_zip3':
+        a_, b_ = operand
+        _need(m.finite, 'key_zip over infinite data')
+        _need(m.listable and m.labelstate == 'unique' and m.bykey,
+              'key_zip needs unique listed keys')
+        _need(set(m.labels) == set(a_.labels) == set(b_.labels),
+              'key_zip needs equal key sets')
+        da, db = dict(a_.entries), dict(b_.entries)
+        return M([(k_, (v, da[k_], db[k_])) for k_, v in m.entries],
+                 indexable=m.indexable and a_.indexable and b_.indexable,
+                 listable=True, items=True, bykey=True, copyable=m.copyable)
     if k == 'groupby':
         if not m.finite:
             raise Skip
@@ -408,7 +446,7 @@ def _apply_op(m, op, operand=None):
     raise ValueError(f'unknown op {op!r}')
 
 
-TRANSPARENT = ('map', 'parmap', 'apply_eager', 'mapfail', 'batch', 'batch_map', 'items',
+TRANSPARENT = ('map', 'parmap', 'apply_eager', 'mapfail', 'batch', 'batch_map',
                'copy', 'freeze', 'tile')
 NOT_FROZEN_INDEXABLE = ('filter', 'unbatch', 'catch', 'prefetch1', 'prefetcht',
                         'apply_lazy', 'localshuffle', 'cycle')
@@ -430,9 +468,12 @@ def apply(m, op, operand=None):
         new.findexable = fi
     elif k in TRANSPARENT:
         new.findexable = fi
+    elif k == 'items':
+        # indexing the i-th pair looks the key up in keys(): unique keys needed
+        new.findexable = fi and m.labelstate == 'unique' and m.keysok
     elif k in ('concat', 'intersperse', 'zip', 'key_zip'):
         new.findexable = fi and getattr(operand, 'findexable', operand.indexable)
-    elif k == 'concat3':
+    elif k == 'concat3' or k in ('intersperse3', 'zip3', 'key_zip3'):
         new.findexable = fi and all(getattr(o, 'findexable', o.indexable) for o in operand)
     elif k in NOT_FROZEN_INDEXABLE:
         new.findexable = False
@@ -470,5 +511,28 @@ def run(prog, upto=None):
                 operand = run(spec)
         elif op[0] == 'concat3':
             operand = tuple(run(x) for x in concat3_operands(op[1]))
+        elif op[0] in NARY:
+            operand = nary_operands(m, op)
         m = apply(m, op, operand)
     return m
+
+
+NARY = ('intersperse3', 'zip3', 'key_zip3')
+
+
+def nary_operand_programs(m, op):
+    """Programs of the 2nd and 3rd input of a 3-way operation (the 2nd is
+    'selfmap' for zip3 / key_zip3)."""
+    kind = op[1]
+    if op[0] == 'intersperse3':
+        return concat3_operands(kind)[1], \
+            {'src': (kind, 3, 'pickle', 's', 400), 'ops': [('map', 'g')]}
+    if op[0] == 'zip3':
+        return 'selfmap', {'src': (kind, m.n, 'pickle', 'q', 100), 'ops': []}
+    return 'selfmap', {'src': ('dict', m.n, 'pickle', 'k', 100, 'rev'), 'ops': []}
+
+
+def nary_operands(m, op):
+    a_, b_ = nary_operand_programs(m, op)
+    ma = apply(m, ('map', 'z')) if a_ == 'selfmap' else run(a_)
+    return ma, run(b_)
